@@ -587,12 +587,19 @@ fn sqpoll_thread(sim: bool) -> Result<Out, String> {
     let r = Ring::new_with(4, SETUP_SQPOLL, 50)?;
     let (pr, pw) = pipe();
     r.push(poll_add(pr, 1, false));
-    // no enter at all: the thread is awake right after creation
+    // no enter at all while the thread is awake (right after creation); if the machine was slow
+    // and it already announced that it sleeps, the wake-up call — which submits nothing — is needed
     let t0 = std::time::Instant::now();
-    while r.sq_head() != r.sq_tail() && t0.elapsed().as_millis() < 1000 {
+    let mut woke = false;
+    while r.sq_head() != r.sq_tail() && t0.elapsed().as_millis() < 2000 {
+        if !woke && r.word(r.sq, r.p.sq_off.flags).load(Ordering::Acquire) & 1 != 0 {
+            let n = r.enter(0, 0, 2 /* SQ_WAKEUP */, None);
+            ensure!(n == 0, "enter(to_submit=0, SQ_WAKEUP) returned {n}");
+            woke = true;
+        }
         std::thread::yield_now();
     }
-    ensure!(r.sq_head() == r.sq_tail(), "the kernel thread did not take the entry within 1 s");
+    ensure!(r.sq_head() == r.sq_tail(), "the kernel thread did not take the entry within 2 s (woken: {woke})");
     // after its idle time the thread announces that it sleeps
     std::thread::sleep(std::time::Duration::from_millis(200));
     let flags = r.word(r.sq, r.p.sq_off.flags).load(Ordering::Acquire);
